@@ -301,6 +301,45 @@ static void big_case(uint64_t idx, void *ctx)
     mc_nontrivial();
     mc_outcome((uint64_t) n * 9 + (uint64_t) how * 3 + (uint64_t) cls);
 }
+/* ---- a very long list (400000 elements, built by the cheap operation of each class), duplicated, spot-checked and deleted: anything
+ * that uses stack or time in proportion to the length per element shows here; run in the unoptimised plain build */
+static void huge_desc(uint64_t idx, void *ctx, char *b, size_t n) { (void) ctx; snprintf(b, n, "%s list of 400000 elements: dup, count, five positions, delete both", CN[idx % 3]); }
+static void huge_case(uint64_t idx, void *ctx)
+{
+    const int n = 400000; (void) ctx; CLS = (int) (idx % 3);
+    mc_set_shape("400000 elements");
+    spif_list_t l = new_list(); char t[16];
+    for (int i = 0; i < n; i++) { snprintf(t, sizeof t, "e%06d", CLS == 1 ? n - 1 - i : i); spif_obj_t e = SPIF_OBJ(spif_str_new_from_ptr((spif_charptr_t) t)); if (CLS == 1) SPIF_LIST_PREPEND(l, e); else SPIF_LIST_APPEND(l, e); }
+    spif_list_t d = (spif_list_t) SPIF_LIST_DUP(l);
+    if (!d) FAIL(site("dup"), "model:return", "400000 elements", "dup returned NULL");
+    else {
+        if ((int) SPIF_LIST_COUNT(d) != n) FAIL(site("dup"), "model:count", "400000 elements", "the copy counts %d", (int) SPIF_LIST_COUNT(d));
+        int pos[5] = { 0, 1, n / 2, n - 2, n - 1 };
+        for (int k = 0; k < 5; k++) { snprintf(t, sizeof t, "e%06d", pos[k]); spif_obj_t g = SPIF_LIST_GET(d, pos[k]), o = SPIF_LIST_GET(l, pos[k]);
+            if (!g || g == o || !SPIF_OBJ_IS_STR(g) || strcmp((char *) SPIF_STR(g)->s, t)) { FAIL(site("dup"), "model:element", "400000 elements", "position %d of the copy is not an equal distinct copy", pos[k]); break; } }
+        SPIF_LIST_DEL(d);
+    }
+    SPIF_LIST_DEL(l);
+    mc_nontrivial();
+}
+/* ---- positions at the far ends of the 32-bit index type: get/remove_at refuse them all, insert_at refuses the negative ones */
+static const int XI[] = { 2147483647, 2147483646, 1073741824, 65536, -65536, -1073741824, -2147483647, -2147483647 - 1 };
+#define NXI ((int) (sizeof XI / sizeof XI[0]))
+static void xi_desc(uint64_t idx, void *ctx, char *b, size_t n) { (void) ctx; snprintf(b, n, "%s list [a,b,c]: get, remove_at%s with position %d", CN[idx % 3], XI[idx / 3] < 0 ? ", insert_at" : "", XI[idx / 3]); }
+static void xi_case(uint64_t idx, void *ctx)
+{
+    int at = XI[idx / 3]; (void) ctx; CLS = (int) (idx % 3);
+    mc_set_shape("position far outside the list");
+    spif_list_t l = new_list();
+    spif_obj_t e[3]; for (int k = 0; k < 3; k++) { e[k] = mk(k); SPIF_LIST_APPEND(l, e[k]); }
+    if (SPIF_LIST_GET(l, at)) FAIL(site("get"), "model:not-refused", "position far outside the list", "get(%d) on 3 elements returned an element", at);
+    spif_obj_t r = SPIF_LIST_REMOVE_AT(l, at);
+    if (r) FAIL(site("remove_at"), "model:not-refused", "position far outside the list", "remove_at(%d) on 3 elements returned an element", at);
+    if (at < 0) { spif_obj_t x = mk(0); if (SPIF_LIST_INSERT_AT(l, x, at)) FAIL(site("insert_at"), "model:not-refused", "position far outside the list", "insert_at(%d) on 3 elements must be refused", at); else SPIF_OBJ_DEL(x); }
+    if ((int) SPIF_LIST_COUNT(l) != 3 || SPIF_LIST_GET(l, 0) != e[0] || SPIF_LIST_GET(l, 1) != e[1] || SPIF_LIST_GET(l, 2) != e[2]) FAIL(site("remove_at"), "model:changed", "position far outside the list", "the list changed");
+    SPIF_LIST_DEL(l);
+    mc_nontrivial();
+}
 int main(int argc, char **argv)
 {
     mc_init("C02", argc, argv);
@@ -311,11 +350,13 @@ int main(int argc, char **argv)
     mc_info("alphabet", "elements {a,b,c} (fresh str object per insertion) + NULL placeholders; ops append, prepend, insert_at(x,i) i in window(n), remove(x in a..d), remove_at(i) i in window(n), reverse; size cap %d; %d opcodes; "
             "probe: count, get over window(n), index/find/contains(a..d), to_array, iterator to exhaustion + 2, two interleaved iterators, dup read-back, show; white-box link invariants", S, NOPS);
     const char *only = mc_arg("class", NULL);
+    if (mc_arg("only", NULL) && !strcmp(mc_arg("only", ""), "huge")) { mc_e2_level("huge", 400000, 3, huge_case, huge_desc, NULL); return mc_finish(); }
     for (CLS = 0; CLS < 3; CLS++) {
         if (only && strcmp(only, CN[CLS])) continue;
         mc_sys sys = { CN[CLS], NOPS, op_name, fresh, enabled, apply, probe, canon, teardown, (int) mc_arg_int("lookahead", 1) };
         mc_e1_run(&sys, (int) mc_arg_int("depth", 40));
     }
+    if (!only) mc_e2_level("extreme_index", 32, (uint64_t) NXI * 3, xi_case, xi_desc, NULL);
     if (!only) mc_e2_level("large", 513, (uint64_t) 3 * 3 * NBIGN, big_case, big_desc, NULL);
     return mc_finish();
 }
